@@ -319,4 +319,39 @@ def c10_entry(expr="r.n > 6 and r.s"):
             end = f"raise {type(e).__name__}"
     return {"violates": got != want or end != "stop", "detail": f"reading by path with the text selector {expr!r} yields {got} (ended {end}), testing each record afterwards keeps {want}"}
 
-CALLS = {"c10_entry": c10_entry, "c10_history_grouped": c10_history_grouped, "c10_frame_list": c10_frame_list, "c10_history_value": c10_history_value, "c10_equiv": c10_equiv, "c10_sweep": c10_sweep, "c10_reader": c10_reader, "c10_history": c10_history, "c10_frame": c10_frame, "c10_make": c10_make, "c10_model_conformance": c10_model_conformance}
+
+def c10_selector_raises(kind="stream"):
+    """a selector that cannot be evaluated on the second record: the reader yields what was kept before and raises, like testing afterwards does"""
+    from flow.record import RecordDescriptor, RecordReader, RecordWriter
+    from flow.record.selector import Selector
+
+    k = {"stream": "stream"}.get(kind, kind)
+    scheme, fname, _ = KINDS[k]
+    D = RecordDescriptor("c10/sz", [("string", "size"), ("string", "s")])
+    recs = [D(size="5", s="a"), D(size="zz", s="b"), D(size="7", s="c")]
+
+    class Raising(Selector):
+        def match(self, r):
+            if r.s == "b":
+                raise TypeError("'>' not supported between instances of 'str' and 'int'")
+            return True
+
+    with tempfile.TemporaryDirectory() as td:
+        path = scheme + os.path.join(td, fname)
+        w = RecordWriter(path)
+        for r in recs:
+            w.write(r)
+        w.flush()
+        w.close()
+        got, end = [], "stop"
+        try:
+            with RecordReader(path, selector=Raising("r.s")) as rd:
+                for r in rd:
+                    got.append(r.s)
+        except TypeError:
+            end = "raise TypeError"
+        except Exception as e:
+            end = f"raise {type(e).__name__}"
+    return {"violates": got != ["a"] or end != "raise TypeError", "detail": f"{kind}: the reader yielded {got} and ended {end}; testing afterwards keeps ['a'] and raises TypeError at the second record"}
+
+CALLS = {"c10_selector_raises": c10_selector_raises, "c10_entry": c10_entry, "c10_history_grouped": c10_history_grouped, "c10_frame_list": c10_frame_list, "c10_history_value": c10_history_value, "c10_equiv": c10_equiv, "c10_sweep": c10_sweep, "c10_reader": c10_reader, "c10_history": c10_history, "c10_frame": c10_frame, "c10_make": c10_make, "c10_model_conformance": c10_model_conformance}
